@@ -286,7 +286,19 @@ type procResult struct {
 	Wall    time.Duration
 }
 
+// runProc runs a command under a watchdog. A run that exceeds its time limit is repeated once with three times the limit before
+// it counts as a hang: a stall of the whole machine (a snapshot, a burst of other checks' I/O) made eight consecutive jobs of a
+// thorough sweep exceed 20 s on the unchanged tree, while a command that really hangs does so again.
 func runProc(timeout time.Duration, dir string, env []string, bin string, args ...string) procResult {
+	res := runProcOnce(timeout, dir, env, bin, args...)
+	if res.Timeout {
+		time.Sleep(2 * time.Second)
+		res = runProcOnce(3*timeout, dir, env, bin, args...)
+	}
+	return res
+}
+
+func runProcOnce(timeout time.Duration, dir string, env []string, bin string, args ...string) procResult {
 	ctx, cancel := context.WithTimeout(context.Background(), timeout)
 	defer cancel()
 	cmd := exec.CommandContext(ctx, bin, args...)
